@@ -576,6 +576,7 @@ class LinAnalysis:
         self.post = {}            # function name -> post(...) used at call sites instead of the body
         self._wants = {}
         self.max_returns = 10
+        self.flex = {}             # record -> (member array, bytes before it): inline area that extends to the end of the allocation
         self.state_budget = None   # deterministic cut: number of block states processed
         self.over_budget = False
         self.cur = None
@@ -787,9 +788,13 @@ class LinAnalysis:
                 T = f.T(p["t"])
                 to = f.T(T.get("to"))
                 if spec and spec[0] == "bytes":
-                    sz = pvals.get(spec[1]) if isinstance(spec[1], str) else Lin.const(spec[1])
-                    if sz is None:
-                        sz = self.fresh(st, "size." + p["n"])
+                    want = pvals.get(spec[1]) if isinstance(spec[1], str) else Lin.const(spec[1])
+                    # at least the stated number of bytes (a negative count states nothing)
+                    sz = self.fresh(st, "size." + p["n"], 0, (1 << 63) - 1)
+                    if want is not None:
+                        st.add(sz - want)
+                    if len(spec) > 3:
+                        st.add(Lin.const(spec[3]) - sz)
                     reg = Region("*" + p["n"], sz, "contract")
                     st.env[loc] = Ptr(reg, Lin.const(0), maybe_null=spec[2] if len(spec) > 2 else True)
                 elif spec and spec[0] == "scalar":
@@ -920,6 +925,22 @@ class LinAnalysis:
             reg = Region(str(loc), Lin.const(T.get("sz", 0) or 0), "local")
             st.env[loc] = Ptr(reg, Lin.const(0))
             return st.env[loc]
+        if T.get("k") == "array" and loc[0] == "f":
+            # member array: its declared bytes, or (flexible inline area) what the object's allocation leaves from there on
+            path = loc[2]
+            pre = path.rsplit(".", 1)[0] + "." if "." in path else ""
+            fld = path.rsplit(".", 1)[-1]
+            rec = self.objrec.get((loc[1], pre))
+            size = Lin.const(T.get("sz", 0) or 0)
+            fx = self.flex.get(rec)
+            if fx and fx[0] == fld:
+                pay = self.payload_of(st, loc[1], pre)
+                R = self.prog.records.get(rec)
+                if pay is not None and R:
+                    size = Lin.const(R.get("size", 0) - fx[1]) + pay.size
+            reg = Region("%s.%s" % (loc[1], path), size, "local")
+            st.env[loc] = Ptr(reg, Lin.const(0))
+            return st.env[loc]
         v = self.fresh_of_type(st, fr.f, e.get("t"))
         if v is not None:
             st.env[loc] = v
@@ -977,7 +998,7 @@ class LinAnalysis:
             rec = self.objrec.get((loc[1], pre))
             if rec:
                 for (o2, p2), r2 in self.objrec.items():
-                    if r2 == rec and o2 != loc[1] and isinstance(o2, str) and o2[0] in "PLC":
+                    if r2 == rec and o2 != loc[1] and isinstance(o2, str) and o2[0] in "PLC" and ("distinct", loc[1], o2) not in st.env:
                         k2 = ("f", o2, p2 + fld)
                         if k2 in st.env and st.env[k2] != v:
                             del st.env[k2]
@@ -1377,6 +1398,29 @@ class LinAnalysis:
         b = self.ev(e["b"], st, fr)
         return self.arith(op, a, b, st, fr, e)
 
+    def evq(self, e, st, fr):
+        """value of a condition operand without repeating its side effect (the condition was evaluated as an element)"""
+        x = strip(e, all_casts=False)
+        inner = x
+        casts = []
+        while isinstance(inner, dict) and inner.get("k") == "cast" and inner.get("ck") in ("IntegralCast", "NoOp", "BitCast") and "sid" not in inner:
+            casts.append(inner)
+            inner = inner["e"]
+        if isinstance(inner, dict) and "sid" in inner and (fr.id, inner["sid"]) in st.cache:
+            v = st.cache[(fr.id, inner["sid"])]
+        elif isinstance(inner, dict) and inner.get("k") == "bin" and inner.get("op", "").endswith("=") and inner["op"] not in ("==", "!=", "<=", ">="):
+            v = self.load(self.lval(inner["a"], st, fr), st, fr, inner["a"])
+        elif isinstance(inner, dict) and inner.get("k") == "un" and inner.get("op") in ("++", "--"):
+            v = self.load(self.lval(inner["e"], st, fr), st, fr, inner["e"])
+            if inner.get("post") and isinstance(v, Lin):
+                v = v - Lin.const(1 if inner["op"] == "++" else -1)
+        else:
+            return self.ev(e, st, fr)
+        for c in reversed(casts):
+            if c.get("ck") == "IntegralCast" and isinstance(v, Lin):
+                v = self.conv(v, st, fr.f, c.get("t"))
+        return v
+
     # ---- conditions ----------------------------------------------------------------------------------------
     def cmp_lin(self, op, a, b):
         """constraints (list of Lin >= 0) for a op b; None when it is a disjunction"""
@@ -1436,6 +1480,8 @@ class LinAnalysis:
                         return None
                     if a.region is b.region:
                         a, b = a.off, b.off
+                    elif op in ("==", "!=") and "alloc" in (a.region.kind, b.region.kind) and not a.maybe_null and not b.maybe_null:
+                        return op == "!="      # a fresh allocation is no other object
                     else:
                         return None
                 if isinstance(a, Lin) and isinstance(b, Lin):
@@ -1517,8 +1563,8 @@ class LinAnalysis:
             if op == ",":
                 return self.assume(c["b"], truth, st, fr)
             if op in self.NEG:
-                a = self.ev(c["a"], st, fr)
-                b = self.ev(c["b"], st, fr)
+                a = self.evq(c["a"], st, fr)
+                b = self.evq(c["b"], st, fr)
                 o = op if truth else self.NEG[op]
                 if isinstance(a, (Ptr, ObjPtr)) or isinstance(b, (Ptr, ObjPtr)):
                     return self.assume_ptr_cmp(o, c, a, b, st, fr)
@@ -1542,6 +1588,18 @@ class LinAnalysis:
     def assume_ptr_cmp(self, op, c, a, b, st, fr):
         if isinstance(a, Ptr) and isinstance(b, Ptr) and a.region is b.region and a.region is not None:
             return self.assume_cmp(op, a.off, b.off, st)
+        if isinstance(a, Ptr) and isinstance(b, Ptr) and a.region is not None and b.region is not None and a.region is not b.region \
+                and op in ("==", "!=") and "alloc" in (a.region.kind, b.region.kind) and not a.maybe_null and not b.maybe_null:
+            return [st] if op == "!=" else []
+        if isinstance(a, ObjPtr) and isinstance(b, ObjPtr) and op in ("==", "!="):
+            if (a.obj, a.prefix) == (b.obj, b.prefix):
+                return [st] if op == "==" else []
+            if op == "!=":
+                st.env[("distinct", a.obj, b.obj)] = Lin.const(1)
+                st.env[("distinct", b.obj, a.obj)] = Lin.const(1)
+                return [st]
+            # equal pointers to two symbolic objects: same object - keep the state but nothing is merged (fields of both stay)
+            return [st]
         # comparison with the null pointer
         for x, xe, y in ((a, c["a"], b), (b, c["b"], a)):
             if isinstance(y, Ptr) and y.region is None and op in ("==", "!="):
@@ -1580,7 +1638,7 @@ class LinAnalysis:
         return None
 
     def assume_val(self, c, src, truth, st, fr):
-        v = self.ev(c, st, fr)
+        v = self.evq(c, st, fr)
         if isinstance(v, Lin):
             if truth:
                 if len(v.t) == 1 and v.c == 0 and list(v.t)[0] in self.sym_nonzero_lo and st.entails(v):
@@ -1636,6 +1694,10 @@ class LinAnalysis:
             pi, ni = WRITE_FUNCS[base]
             self.check_access(st, fr, e, args[pi], args[ni], "write of")
             return [(st, self.fresh_of_type(st, f, e.get("t")))]
+        if base == "strlen" and args and isinstance(args[0], Ptr) and args[0].region is not None:
+            r = self.fresh(st, "strlen", 0, (1 << 63) - 1)
+            st.add(args[0].region.size - args[0].off - Lin.const(1) - r)      # the terminator lies inside the area
+            return [(st, r)]
         if base in ("malloc", "realloc", "calloc"):
             sz = args[-1] if base != "calloc" else None
             if base == "realloc" and isinstance(args[0], Ptr) and args[0].region is not None and isinstance(sz, Lin):
